@@ -95,6 +95,7 @@ def drainD (r : DRun) : DRun := Id.run do
 
 def handleErrorD (r : DRun) : DRun :=
   let r := trStatus r "es"
+  let r := { r with tr := r.tr.push s!"@{r.label}:ef={r.p.flag}" }
   let r := trWhere r "ew"
   let r := if r.rawerr then r else drainD r
   let r := trStatus r "es2"
@@ -223,6 +224,7 @@ def runOp (scan : Scan) (r : DRun) (op : Char) (n : Nat) : DRun :=
     | .ok p => { r with p := p, tr := r.tr.push s!"@{r.label}:L={p.line}:{p.column}" }
   | 'E' => opEof scan r
   | 'G' => r
+  | 'g' => r
   | 'x' => r
   | _ => { r with tr := r.tr.push s!"BADOP{op}" }
 
